@@ -445,7 +445,7 @@ def oracle_case(ctx, p, pos, freq):
     sm, mut = run_seq(p)
     ref = bloch(p, pos, freq)
     mp, mz = synth(sm, pos, freq)
-    scale = 1 + np.abs(ref).max()
+    scale = (1 + np.abs(ref).max()) * p.get("tol", 1e-9) / 1e-9
     if p.get("nb"):
         if mp.shape != ref.shape[:-1]:
             return "state matrix shape %s, expected one signal per batch entry %s" % (mp.shape[:-1], ref.shape[:-2])
@@ -502,7 +502,59 @@ def gen_batched(rng):
             "kgrid": 1.0 / 1024, "reuse": True, "nb": nb}
 
 
+def gen_large(rng):
+    """real-valued shifts / gradient tables of LARGE magnitude (1e3 .. 1e5 rad/m) with fractional parts from one grid
+    unit up to 0.5 (also exactly integer-valued floats), as the first real-valued shift of a sequence (on a state
+    without coordinates or with integer coordinates) and later; kgrid = unit / 4 never merges distinct wavenumbers.
+    Observed at positions up to ~1 m with tolerance 1e-6 (binary64 phases k.r ~ 1e5 rad carry ~1e-11 rad)."""
+    u = rng.choice([1e-3, 1e-2])
+    steps = [0, 0, 1, 2, 5, 10, 20, 25, 50] + ([100, 200, 250, 500] if u == 1e-3 else [])
+    dim = rng.choice([1, 2, 3, 3, 3])
+    exact_int = rng.random() < 0.2
+
+    def large_vec():
+        v = []
+        for _ in range(dim):
+            if rng.random() < 0.35:
+                v.append(0.0); continue
+            mag = int(10 ** rng.uniform(3, 5))
+            fr = 0 if exact_int else rng.choice(steps)
+            v.append(rng.choice([1, -1]) * round(mag + fr * u, 3))
+        if not any(v):
+            v[0] = round(int(10 ** rng.uniform(3, 5)) + (0 if exact_int else rng.choice(steps)) * u, 3)
+        return ("Sfl", v)
+
+    def large_grad():
+        g = [rng.choice([0.0, 0.0, 10.0, -25.3, 40.0, 80.0, -12.7]) for _ in range(3)]
+        if not any(g):
+            g[rng.randrange(3)] = 25.3
+        return ("G", rng.choice([0.5, 1.0, 2.0]), g)
+
+    def rf():
+        return ("T", rng.choice([20, 45, 60, 90, 120, 160]), rng.choice([0, 30, 90, 200]))
+    kind = rng.choice(["S", "S", "G", "mix"])
+    shift = lambda: (large_vec() if kind == "S" else large_grad() if kind == "G" else rng.choice([large_vec, large_grad])())
+    if kind != "S":
+        dim = 3
+    ops = [rf()]
+    if rng.random() < 0.3:
+        # integer coordinates already present when the first real-valued shift arrives
+        ops += [("Snd", [rng.choice([1, -1, 2])] + [0] * (dim - 1)), rf()]
+    palette = [shift() for _ in range(rng.randint(1, 2))]
+    for i in range(rng.randint(1, 3)):
+        ops.append(rng.choice(palette) if (i and rng.random() < 0.5) else (palette[0] if i == 0 else shift()))
+        ops.append(rf())
+        if rng.random() < 0.4:
+            ops.append(("E", rng.choice([2.0, 5.0]), 1000.0, 80.0, rng.choice([0.0, 0.01])))
+    return {"fam": "large-" + kind, "ops": ops, "kvalue": rng.choice([1.0, 1.0, 2.5]), "tvalue": 1.0, "kgrid": u / 4,
+            "reuse": True, "tol": 1e-6}
+
+
 def positions(rng, p, n=4):
+    if p["fam"].startswith("large"):
+        s = rng.choice([0.05, 0.3, 1.0])
+        pos = np.array([[rng.uniform(-0.5, 0.5) * s for _ in range(3)] for _ in range(n)])
+        return pos, np.zeros(n)
     big = any(o[0] == "G" for o in p["ops"])
     s = 1e-3 if big else 1.0
     pos = np.array([[rng.uniform(-3, 3) * s for _ in range(3)] for _ in range(n)])
@@ -682,11 +734,11 @@ def run(ctx):
     ctx.cov["correspondence_terms"] = len(terms)
 
     # (b) the oracle of the property (always run: supporting evidence and failing-input search)
-    n_or = 60 if quick else 1500
+    n_or = 72 if quick else 1800
     fams = {}
     oracle_failed = False
     for i in range(n_or):
-        p = gen_batched(rng) if i % 3 == 2 else gen_seq(rng)
+        p = gen_large(rng) if i % 4 == 3 else gen_batched(rng) if i % 3 == 2 else gen_seq(rng)
         fams[p["fam"]] = fams.get(p["fam"], 0) + 1
         pos, freq = positions(rng, p)
         try:
